@@ -533,9 +533,14 @@ def _closure_at(code, pos):
     """code[pos] == '|' : parse `|x| BODY` up to the closing ')' of the enclosing call.
     returns (var, body_text, index_of_closing_paren)"""
     m = re.compile(r"\|\s*(mut\s+)?(\w+)\s*\|\s*").match(code, pos)
+    tuple_pat = None
     if not m:
-        raise ExtractError("R9: closure form not supported near: %s" % code[pos:pos + 40])
-    var = m.group(2)
+        # `|(a, b)| BODY`: the tuple is bound inside the body
+        m = re.compile(r"\|\s*(\((?:[\w\s,&]|\bmut\b)*\))\s*\|\s*").match(code, pos)
+        if not m:
+            raise ExtractError("R9: closure form not supported near: %s" % code[pos:pos + 40])
+        tuple_pat = m.group(1)
+    var = "pair_" if tuple_pat else m.group(2)
     # find the ')' that closes the call whose '(' precedes pos
     d = 0
     j = m.end()
@@ -558,6 +563,8 @@ def _closure_at(code, pos):
         body = body[:-1].rstrip()
     if body.startswith("{") and match_close(body, 0) == len(body) - 1:
         body = body[1:-1].strip()
+    if tuple_pat:
+        body = "let %s = pair_; %s" % (tuple_pat, body)
     return var, body, j
 
 
@@ -600,6 +607,24 @@ def rewrite_entry_or_insert_with(code, stats):
     returned ->  `{ let k_ = K; let fresh_ = if M.contains_key(&k_) { None } else { Some(B) }; M.slot_(k_, fresh_) }`
     (`slot_` is the prelude's stand-in for the occupied / vacant entry).  The closure body B is copied verbatim
     and becomes straight-line code, so what it does to the state it captures is verified."""
+    # R17c: the entry bound to a local that is used exactly once afterwards (`let e = M.entry(k); e.or_insert_with(..)` /
+    # `match e { .. }`) is the entry expression itself (an `Entry` does nothing until it is consumed)
+    for _ in range(4):
+        masked = mask_trivia(code)
+        lm_ = re.search(r"\blet\s+(?:mut\s+)?(\w+)\s*=\s*((?:[\w.]|\(\))+?\s*\.\s*entry\s*\()", masked)
+        if not lm_:
+            break
+        op_ = lm_.end() - 1
+        cl_ = match_close(code, op_, "(", ")")
+        sm_ = re.compile(r"\s*;").match(masked, cl_ + 1)
+        nm_ = lm_.group(1)
+        uses = list(re.finditer(r"(?<![\w.])%s\b" % re.escape(nm_), masked[cl_ + 1:]))
+        if not sm_ or len(uses) != 1:
+            break
+        expr_ = code[lm_.start(2):cl_ + 1]
+        u0 = cl_ + 1 + uses[0].start()
+        code = code[:lm_.start()] + code[sm_.end():u0] + expr_ + code[u0 + len(nm_):]
+        stats["R17"] = stats.get("R17", 0) + 1
     # R17b: the same API spelled out — `match M.entry(K) { Entry::Occupied(o) => A, Entry::Vacant(v) => B }` =
     # `{ let k_ = K; if M.contains_key(&k_) { A } else { B } }` where, inside A, `o.into_mut()` is the stored value
     # (`M.slot_(k_, None)`) and, inside B, `v.insert(X)` stores X under the key and yields it (`M.slot_(k_, Some(X))`)
@@ -741,6 +766,13 @@ def rewrite_iter_adapters(code, stats):
         recv = code[rs:m.start()]
         masked = mask_trivia(code)
         k_ = max(masked.rfind(";", 0, rs), masked.rfind("{", 0, rs), masked.rfind("}", 0, rs))
+        # `let it = RECV.drain(..);` (the drained iterator bound to a local that a loop then consumes): the local is
+        # the collection of drained elements itself
+        lb_ = re.search(r"\blet\s+(?:mut\s+)?(\w+)\s*=\s*$", masked[k_ + 1:rs])
+        if lb_ and re.compile(r"\s*;").match(masked, m.end()):
+            code = code[:k_ + 1] + "\n        let mut %s = %s.drain_all_()" % (lb_.group(1), flat(recv)) + code[m.end():]
+            stats["R9"] = stats.get("R9", 0) + 1
+            continue
         # a `for x in RECV.drain(..)` header: hoist in front of the `for`
         fm = re.search(r"\bfor\s+\w+\s+in\s*$", masked[k_ + 1:rs])
         ins = k_ + 1
@@ -1518,6 +1550,18 @@ def process_fn(fn, spec, handle, stats, canary):
             sig = re.sub(r"(?<![\w])_%s\b" % nm_, nm_, sig)
             body = re.sub(r"(?<![\w])_%s\b" % nm_, nm_, body)
             stats["R1"] += 1
+    # R18: a renamed parameter of an Observer / Observable method (`fn next(&mut self, item: Item)`): the contract
+    # names it as the trait declaration does (`value`, `err`, `observer`).  The signature gets the trait's name and the
+    # body starts with `let item = value;` — the same function up to the name of its parameter.
+    canon_ = {"next": "value", "error": "err", "actual_subscribe": "observer"}.get(name)
+    if canon_ and re.search(r"\b%s\b" % canon_, ctx_ + "\n" + body):
+        pm_ = re.search(r"\(\s*(?:&\s*(?:mut\s+)?|mut\s+)?self\s*,\s*(mut\s+)?(\w+)\s*:\s*[^,()]+\)\s*(?:->|$|where|\{)", sig.strip() + "")
+        if pm_ and pm_.group(2) != canon_ and pm_.group(2) != "_" + canon_ and not re.search(r"(?<![\w.])%s\b" % canon_, mask_trivia(sig)) \
+                and not re.search(r"\blet\s+(?:mut\s+)?%s\b" % canon_, mask_trivia(body)):
+            real_ = pm_.group(2)
+            sig = re.sub(r"(\(\s*(?:&\s*(?:mut\s+)?|mut\s+)?self\s*,\s*)(mut\s+)?%s(\s*:)" % re.escape(real_), r"\g<1>%s\3" % canon_, sig, count=1)
+            body = "\n    let %s%s = %s;" % (pm_.group(1) or "", real_, canon_) + body
+            stats["R18"] = stats.get("R18", 0) + 1
     if canary and (clauses or name in spec.fn) and name not in spec.trusted and name not in spec.canary_skip:
         # vacuity canary: the entry of every contracted function must be reachable, i.e. its
         # preconditions (and the representation invariant) must be satisfiable
@@ -1877,6 +1921,42 @@ def _split_args(s):
     return [x.strip() for x in out]
 
 
+
+def _expand_field_shorthand(text, name):
+    """`Type { name, other: x }` -> `Type { name: name, other: x }` (only inside braces that follow a type path)"""
+    msk = mask_trivia(text)
+    out = []
+    stack = []
+    i = 0
+    last = 0
+    n = len(msk)
+    while i < n:
+        ch = msk[i]
+        if ch in "([{":
+            lit = False
+            if ch == "{":
+                pre = msk[:i].rstrip()
+                wm = re.search(r"([\w>]+)$", pre)
+                lit = bool(wm) and wm.group(1) not in ("else", "loop", "unsafe", "move", "async", "try", "in") and not re.search(r"\b(if|while|for|match|fn|impl|mod|struct|enum|trait)\b[^{};]*$", pre)
+            stack.append((ch, lit))
+        elif ch in ")]}":
+            if stack:
+                stack.pop()
+        elif (ch.isalpha() or ch == "_") and (i == 0 or not (msk[i - 1].isalnum() or msk[i - 1] == "_")):
+            m = re.compile(r"\w+").match(msk, i)
+            w = m.group(0)
+            if w == name and stack and stack[-1] == ("{", True):
+                pre = msk[:i].rstrip()
+                post = msk[m.end():].lstrip()
+                if pre and pre[-1] in "{," and post and post[0] in ",}":
+                    out.append(text[last:m.end()] + ": " + name)
+                    last = m.end()
+            i = m.end()
+            continue
+        i += 1
+    out.append(text[last:])
+    return "".join(out)
+
 def inline_helpers(unit_text, names, paths, stats):
     """R16: a helper function that the extracted text calls but that lies outside the extracted items (a refactoring
     moved a few lines into `fn helper(&self) -> T { <one expression> }`) is INLINED at its call sites: the call
@@ -1981,7 +2061,9 @@ def inline_helpers(unit_text, names, paths, stats):
                 b2 = re.sub(r"(?<![\w.])self\b", recv_.replace("\\", "\\\\"), b2)
             for pn, av in zip(pnames, args):
                 av2 = re.sub(r"^&\s*(mut\s+)?", "", av.strip())
-                b2 = re.sub(r"(?<![\w.])%s\b" % re.escape(pn), av2, b2)
+                # struct-literal shorthand `T { pn, .. }` is `T { pn: pn, .. }`; a field NAME `pn:` is not the parameter
+                b2 = _expand_field_shorthand(b2, pn)
+                b2 = re.sub(r"(?<![\w.])%s\b(?!\s*:(?!:))" % re.escape(pn), av2.replace("\\", "\\\\"), b2)
             # a body made of block-like statements followed by a tail expression (`for .. { .. } self.observer`: no `;`
             # at depth 0, yet not ONE expression) is inlined as a block expression
             bm2_ = mask_trivia(b2)
